@@ -1471,9 +1471,13 @@ def replay(ctx, data):
             FLAGS["touched"].clear()
             FLAGS["called"].clear()
             res = real_load(bytes.fromhex(case["bytes_hex"]), cfg[1])
-            print("replay: outcome=%s find_class calls=%r sentinel touched=%r called=%r" % (
-                res["exc"] or "ok", res["calls"], FLAGS["touched"], FLAGS["called"]))
+            print("replay: outcome=%s find_class calls=%r persistent ids=%r sentinel touched=%r called=%r" % (
+                res["exc"] or "ok", res["calls"], res["pids"], FLAGS["touched"], FLAGS["called"]))
             ctx.evaluations += 1
+            for pid, got in res["pids"]:
+                want_nonetype = type(pid) is str and pid == "<<NoneType>>"
+                if (want_nonetype and got is not type(None)) or (not want_nonetype and got is not None):
+                    ctx.fail(case, "persistent_load(%r) produced %r" % (pid, got))
             allow = effective_allow_py(cfg[1])
             if case.get("entry"):
                 from deepdiff import Delta
